@@ -174,6 +174,7 @@ Proof.
   unfold parse_pi. destruct (starts_with s _); [reflexivity|]. cbv zeta.
   destruct (advance 2 s) as [s1| | |]; cbn [bind]; try reflexivity.
   destruct (consume_name text s1) as [[tg s2]| | |]; cbn [bind]; try reflexivity.
+  destruct (if starts_with s2 _ then _ else _) as [s2'| | |]; cbn [bind]; try reflexivity.
   destruct (consume_chars text _ _) as [[ct s3]| | |]; cbn [bind]; try reflexivity.
   destruct (skip_string text _ s3) as [s4| | |]; cbn [bind]; try reflexivity.
   rewrite Hev by exact I. reflexivity.
